@@ -671,7 +671,115 @@ fn run_escsize(input: &Value) -> Case {
                         "frames_dropped": dropped, "result": format!("{:?}", r)});
         peer.pause(false);
     }
-    for _ in 0..(if backlog { 0 } else { winches }) {
+    // ---- the answer to a size query is already on its way when the next SIGWINCH arrives ("inflight": how many
+    // further signals, each raised with the previous answer sent by the peer and not yet read; "busy": the peer
+    // drains slowly and 200000 bytes of output are queued behind the first query, so the write queue is never
+    // empty in between; "stale_drop": after such a signal the peer stalls, more than 32 frames pile up and the
+    // caller drops them, as run_render does).  Judged by the end state: once the peer has answered everything the
+    // last Resize event and size() report the peer's final size.
+    let inflight = input["inflight"].as_u64().unwrap_or(0);
+    let mut inflight_info = json!(null);
+    if inflight > 0 {
+        let busy = input["busy"].as_bool().unwrap_or(false);
+        let stale_drop = input["stale_drop"].as_bool().unwrap_or(false);
+        let probe = std::fs::OpenOptions::new().read(true).write(true).custom_flags_noctty().open(&path);
+        let sizes: [(u16, u16, u16, u16); 5] = [(31, 101, 620, 1010), (32, 102, 640, 1020), (33, 103, 660, 1030), (34, 104, 680, 1040), (35, 105, 700, 1050)];
+        let mut seen: Vec<(usize, usize)> = vec![];
+        let mut met = 0u64; // signals that did arrive with an answer in flight
+        let mut take = |r: Result<Option<TerminalEvent>, surf_n_term::Error>, seen: &mut Vec<(usize, usize)>, others: &mut u64| match r {
+            Ok(Some(TerminalEvent::Resize(sz))) => seen.push((sz.cells.height, sz.cells.width)),
+            Ok(Some(TerminalEvent::Size(_))) | Ok(None) => {}
+            Ok(Some(_)) => *others += 1,
+            Err(_) => *others += 100,
+        };
+        if let Ok(probe) = probe {
+            if busy {
+                peer.ctl(Ctl::Rates(vec![Rate { size: 2048, sleep_us: 1200 }]));
+            }
+            for i in 0..=(inflight as usize) {
+                peer.ctl(Ctl::AnswerSize(Some(sizes[i])));
+                std::thread::sleep(Duration::from_millis(3)); // the peer thread picks the new size up
+                let send0 = term.stats().send;
+                unsafe { libc::raise(libc::SIGWINCH) };
+                polls += 1;
+                take(term.poll(Some(Duration::from_millis(if i == 0 { 0 } else { 20 }))), &mut seen, &mut others);
+                if i == 0 && busy {
+                    let _ = term.write_all(&vec![b'.'; 200_000]);
+                }
+                if i == inflight as usize {
+                    break;
+                }
+                if stale_drop && i + 1 == inflight as usize {
+                    // before the last signal: the peer stalls, frames pile up; the signal is handled by a poll that
+                    // also reads the previous answer; the caller drops the backlog; the peer resumes
+                    let t0 = Instant::now();
+                    while term.stats().send < send0 + 10 && t0.elapsed() < Duration::from_millis(500) {
+                        polls += 1;
+                        take(term.poll(Some(Duration::from_millis(0))), &mut seen, &mut others);
+                    }
+                    let t0 = Instant::now();
+                    while input_waiting(probe.as_raw_fd()) == 0 && t0.elapsed() < Duration::from_millis(500) {
+                        std::thread::sleep(Duration::from_micros(200));
+                    }
+                    let flying = input_waiting(probe.as_raw_fd()) > 0;
+                    peer.pause(true);
+                    let _ = term.write_all(&vec![b'.'; 200_000]);
+                    for f in 0..40 {
+                        let _ = write!(term, "frame {}", f);
+                        let _ = term.flush();
+                    }
+                    peer.ctl(Ctl::AnswerSize(Some(sizes[i + 1])));
+                    unsafe { libc::raise(libc::SIGWINCH) };
+                    if flying {
+                        met += 1;
+                    }
+                    polls += 1;
+                    take(term.poll(Some(Duration::from_millis(20))), &mut seen, &mut others);
+                    if term.frames_pending() > 32 {
+                        term.frames_drop();
+                    }
+                    peer.pause(false);
+                    break;
+                }
+                // the query goes out (no further poll once it has, so that its answer stays unread) ...
+                let t0 = Instant::now();
+                while term.stats().send < send0 + 10 && t0.elapsed() < Duration::from_millis(500) {
+                    polls += 1;
+                    take(term.poll(Some(Duration::from_millis(0))), &mut seen, &mut others);
+                }
+                // ... and the peer's answer is on its way
+                let t0 = Instant::now();
+                while input_waiting(probe.as_raw_fd()) == 0 && t0.elapsed() < Duration::from_millis(500) {
+                    std::thread::sleep(Duration::from_micros(200));
+                }
+                if input_waiting(probe.as_raw_fd()) > 0 {
+                    met += 1;
+                }
+            }
+            // everything settles
+            let fin = sizes[inflight as usize];
+            peer.ctl(Ctl::Rates(vec![Rate { size: 65536, sleep_us: 0 }]));
+            let t0 = Instant::now();
+            while t0.elapsed() < Duration::from_millis(2500) {
+                if seen.last() == Some(&(fin.0 as usize, fin.1 as usize)) && term.frames_pending() == 0 {
+                    break;
+                }
+                polls += 1;
+                take(term.poll(Some(Duration::from_millis(20))), &mut seen, &mut others);
+            }
+            let size_now = term.size().map(|s| (s.cells.height, s.cells.width)).ok();
+            let ok_final = seen.last() == Some(&(fin.0 as usize, fin.1 as usize)) && size_now == Some((fin.0 as usize, fin.1 as usize));
+            resizes = if ok_final { winches } else { 0 };
+            inflight_info = json!({"signals": inflight + 1, "signals_met_by_an_answer_in_flight": met, "resize_events": seen,
+                                   "final_size_of_the_peer": [fin.0, fin.1], "size()": size_now, "final_size_reported": ok_final});
+            if met > 0 {
+                kinds.push("answer_in_flight");
+            }
+        } else {
+            others += 1000;
+        }
+    }
+    for _ in 0..(if backlog || inflight > 0 { 0 } else { winches }) {
         unsafe { libc::raise(libc::SIGWINCH) };
         // the answer needs a round trip through the peer thread
         let t0 = Instant::now();
@@ -708,11 +816,17 @@ fn run_escsize(input: &Value) -> Case {
         (Some(b), Some(a)) => termios_key(b) == termios_key(a),
         _ => false,
     };
-    j["impl"] = json!({"escape_size_mode": size_mode, "resize_events": resizes, "other_events": others, "polls": polls, "kinds": kinds, "restored": restored, "render_loop": render});
+    j["impl"] = json!({"escape_size_mode": size_mode, "resize_events": resizes, "other_events": others, "polls": polls, "kinds": kinds, "restored": restored, "render_loop": render, "answers_in_flight": inflight_info});
     Case {
         coq: format!("CE {} {} {} {}", winches, resizes, others, cbool(size_mode && restored)),
         json: j,
-        tags: vec![if backlog { "escsize_backlog".into() } else { "escsize".into() }],
+        tags: vec![if backlog {
+            "escsize_backlog".into()
+        } else if inflight > 0 && kinds.contains(&"answer_in_flight") {
+            "escsize_answer_in_flight".into()
+        } else {
+            "escsize".into()
+        }],
         nontrivial: true,
     }
 }
@@ -745,12 +859,18 @@ fn gen_script(rng: &mut Rng) -> Value {
     let mut quiet = true; // nothing can be outstanding: every request so far was followed by enough polls
     let mut since = 0usize; // polls since the last request
     let mut owed = 0usize; // upper bound on the events still to come
+    let mut wake_total = 0u64; // wake requests of the whole script
     for _ in 0..n {
         match rng.below(100) {
             0..=17 => {
                 // at most 1024 bytes are read from the waker socket at once: bursts up to that size coalesce into one event
-                let top = if rng.chance(1, 5) { 400 } else { 5 };
-                acts.push(json!(["wake", 1 + rng.below(top)]));
+                // ... as long as all requests of a script together stay under 1024: how many one-byte writes the
+                // socket holds depends on the kernel's accounting (a few hundred here), so with more than one read's
+                // worth outstanding the number of Wake events is not determined
+                let top = if rng.chance(1, 5) && wake_total < 500 { 400 } else { 5 };
+                let n = 1 + rng.below(top);
+                wake_total += n;
+                acts.push(json!(["wake", n]));
                 fresh = true;
                 fresh_wake = true;
                 owed += 1;
@@ -874,6 +994,12 @@ pub fn generate(rng: &mut Rng, n: usize, _tier: &str) -> Vec<Value> {
     v.push(json!({"blocked_wake": true}));
     v.push(json!({"escsize": true, "winches": 2}));
     v.push(json!({"escsize": true, "backlog": true, "winches": 1}));
+    for k in 1..=3 {
+        v.push(json!({"escsize": true, "inflight": k, "winches": 1}));
+        v.push(json!({"escsize": true, "inflight": k, "busy": true, "winches": 1}));
+    }
+    v.push(json!({"escsize": true, "inflight": 1, "stale_drop": true, "winches": 1}));
+    v.push(json!({"escsize": true, "inflight": 2, "stale_drop": true, "winches": 1}));
     // (corpus/C17: failed open, event flood at drop, a key arriving during a 1 MiB frame)
     // ... with the peer stalled only a wake request cuts the wait short, the key follows it
     v.push(json!({"acts": [["pause", true], ["write", 200000], ["in", "k"], ["wake", 1], ["poll", -1], ["poll", 20], ["pause", false], ["poll", 5]], "end": "drop"}));
